@@ -147,6 +147,17 @@ TEXT = {
         note=COMMON_NOTE,
         technique="relational, stateful TLA+ trace validation with TLC; named deviation for the recorded known finding",
         ref="DESIGN.md section 7 C12"),
+    "C13": dict(
+        level="The specification computes, in TLA+ fixed-point decimal arithmetic with directed rounding, a rigorous enclosure [L, U] "
+              "of e^|x| (exact argument reduction by 2^m = 10^m / 5^m, Taylor sum with explicit tail bound, m interval squarings) "
+              "that is > 25 digits tighter than an ulp; the crate's result r is accepted iff r > 0 and [r-ulp, r+ulp] meets the "
+              "enclosure (for x < 0 tested by multiplication against 1/U, 1/L); exp(0) = 1 exactly. Each evaluation costs TLC "
+              "0.5-5 s, so inputs are few and chosen: integers -120..120 (every 9th quick, all thorough), 1..40-digit arguments "
+              "with magnitudes 1e-60..1e2 (quick) / 1e3 (thorough), truncations of k*ln 10 (+-1 in the last place) where e^x "
+              "crosses a power of ten. |x| <= 1000 is sampled (30 arguments, thorough), not swept.",
+        note=COMMON_NOTE + " The enclosure operators are part of the specification (spec/Exp.tla).",
+        technique="TLA+ trace validation with TLC against an interval enclosure computed by the specification",
+        ref="DESIGN.md section 7 C13"),
     "C16": dict(
         level="The specification defines {:.N} as: a numeral with exactly N fraction digits whose value is RoundToScale(x, N, "
               "configured mode) - the same operator that decides C06 - or, for integers whose padding would exceed the limit, an "
